@@ -203,6 +203,13 @@ def split_cases(text):
 def build_harness(name, features=None, timeout=1500):
     """cargo build of /verif/harness/<name> against /repo's current working tree."""
     hdir = os.path.join(VERIF, "harness", name)
+    tmpl = os.path.join(hdir, "Cargo.toml.in")
+    if os.path.exists(tmpl):
+        # the dependency path is the repository under test (VERIF_REPO, default /repo)
+        text = open(tmpl).read().replace("@REPO@", REPO)
+        toml = os.path.join(hdir, "Cargo.toml")
+        if not os.path.exists(toml) or open(toml).read() != text:
+            open(toml, "w").write(text)
     lock = os.path.join(REPO, "Cargo.lock")
     if os.path.exists(lock) and not os.path.exists(os.path.join(hdir, "Cargo.lock")):
         shutil.copy(lock, os.path.join(hdir, "Cargo.lock"))
